@@ -37,6 +37,10 @@ def cases(tier, seed):
     pairs = list(itertools.product(TYPES, TYPES))
     for a, b in pairs:
         out.append({"name": "pair.route/%s>%s" % (a, b), "kind": "route", "layers": [a, b], "cap": cap})
+    # the same with suspension points at bytecode-instruction boundaries (windows inside one statement)
+    for layers in ([[t] for t in TYPES] + ([list(p) for p in pairs] if tier == "thorough" else [["map", "poll"], ["poll", "map"], ["retry", "poll"]])):
+        out.append({"name": "pair.route-instr/%s" % ">".join(layers), "kind": "route", "layers": layers,
+                    "cap": None if len(layers) == 1 else (60 if tier == "quick" else 400), "gran": "instr"})
     for a in TYPES:
         # a poll function that raises once: exactly the submissions it was shown fail with that exception
         out.append({"name": "pair.route-raise/%s>poll" % a, "kind": "route", "layers": [a, "poll"], "cap": cap * 2, "poll_raise": True})
@@ -269,7 +273,7 @@ def run_route(case, res):
     has_worker = bool(set(case["layers"]) & {"retry", "poll", "throttle", "timeout"})
     for victim in (("chain", "worker") if has_worker else ("chain",)):
         for second in ("completeB", "submitC", "runC"):
-            Sweep(RScenario(case, victim, second), res, "vt", case["name"]).run(case["cap"], rng, per_site=1)
+            Sweep(RScenario(case, victim, second), res, "vt", case["name"], gran=case.get("gran", "line")).run(case["cap"], rng, per_site=1)
             if harness.need_recycle():
                 return
 
